@@ -41,18 +41,6 @@ theorem lost_race_is_error (env : PEnv) (mh : Match) (st : ExecSt) (orc : Nat â†
 
 /-! ### C13: exit statuses, argument vectors -/
 
-/-- The value `exec()` derives from what `fork`/`waitpid` report: 0 for a clean exit, the exit
-code for a non-zero exit other than 127, -1 for 127, 128 + signal for a signalled child, and -1
-when /dev/null cannot be opened or `fork`/`waitpid` fail. -/
-def execValue (devnullOk : Bool) (forkRes waitRes : Res) : Int :=
-  if !devnullOk then -1
-  else match forkRes with
-    | .ok _ =>
-      match waitRes with
-      | .ok status => execStatus status
-      | _ => -1
-    | _ => -1
-
 /-- The value of `execP` in terms of the three results it consumes. -/
 theorem Own.execP_run (fdin : Option Handle) (orc : Nat â†’ Call â†’ Res) (i : Nat) :
     (runO orc (execP fdin) i).1 =
